@@ -311,10 +311,13 @@ class Analyzer:
         st = st or self.cur_state
         dirty = self.cur_dirty
         out = []
+        strong = False
         for (a, b, c) in un:
             if a[0] != "n" or b[0] != "n":
                 return None
             a2, b2, c2 = a, b, c
+            if not self.liftable_term(a[1], dirty) or not self.liftable_term(b[1], dirty):
+                strong = True
             if not self.liftable_term(a[1], dirty):
                 # need P with  a - P <= d  :  then  P - b <= c - d  suffices
                 best = None
@@ -352,7 +355,8 @@ class Analyzer:
             out.append((a2, b2, c2))
         if not out:
             return None
-        return ("conj", out)
+        # third component: the constraint was strengthened (sufficient, no longer necessary)
+        return ("conj", out, strong)
 
     def conj_assume(self, st, cons):
         for (a, b, c) in cons:
@@ -1017,6 +1021,16 @@ class Analyzer:
                 st.copy_facts((cs[0], cs[1]), (cd[0], cd[1]))
                 if v[0] != "top":
                     st.sym[(cd[0], cd[1])] = v
+                # numeric leaves of small structs / tuples: the copy equals the source field
+                if self.interproc is not None and (cs[0], cs[1]) != (cd[0], cd[1]):
+                    for steps, ft in self.interproc._num_leaves(cs[2]):
+                        if isinstance(ft, tuple) or self.T[ft]["k"] != "int":
+                            continue
+                        dp = (cd[0], cd[1] + steps)
+                        if dp not in st.sym:
+                            sp = (cs[0], cs[1] + steps)
+                            sv = st.sym.get(sp)
+                            st.sym[dp] = sv if (sv is not None and sv[0] == "n") else ("n", ("v", sp[0], sp[1]), 0)
                 return
         if v[0] == "quot":
             self.assign(st, pj, v[1])
@@ -1235,6 +1249,10 @@ class Analyzer:
         if seeds:
             for l, (lo, hi) in seeds.items():
                 st0.set_iv(("v", l, ()), lo, hi)
+        if self.invariants and self.interproc is not None:
+            # global field invariants hold on entry for everything reachable from the parameters
+            for t, lo, hi in self.interproc.inv_terms(body):
+                st0.set_iv(t, lo, hi)
         ins[0] = st0
         visits = {}
         work = {0}
